@@ -57,10 +57,15 @@ impl BlockFormatter for BlockIndentRemover {
             None => 0,
         };
         let mut current_pos = start_byte_pos + 1;
-        // The removal position is not always followed by a line break (a child range may have been
-        // merged into the opening part): do not start inside a multi-byte character.
-        while current_pos < content.len() && !content.is_char_boundary(current_pos) {
-            current_pos += 1;
+        if bytes.get(start_byte_pos) != Some(&b'\n') {
+            // The opening part does not end at a line break (a child range has been merged into
+            // it): what follows on that line is code, not an indented line of the block. Start
+            // with the next line.
+            let rest = bytes.get(start_byte_pos..).unwrap_or_default();
+            match rest.iter().position(|b| *b == b'\n') {
+                Some(ofs) => current_pos = start_byte_pos + ofs + 1,
+                None => return vec![],
+            }
         }
         let first_indent_len = get_indent_len(content, current_pos);
         let indent_len = first_indent_len.saturating_sub(indent_ofs);
